@@ -93,7 +93,9 @@ def finish(ctx, evidence_dir=None, quiet=False):
         okc = sum(1 for i in r.instances if i['ok'])
         n_obl += n
         n_ok += okc
-        if n < r.floor:
+        if n < r.floor and not r.findings:
+            # a rule that reports findings has located its anchors: the findings are the diagnosis (a failing obligation often
+            # ends the examination of its construct early, so fewer instances are normal there)
             below_floor.append((r, n))
         lines.append('rule %-10s %3d/%-3d discharged  (floor %d)  %s' % (r.id, okc, n, r.floor, r.desc))
         for f in r.findings:
@@ -111,9 +113,12 @@ def finish(ctx, evidence_dir=None, quiet=False):
             ctx.pid, ctx.tier, len(ctx.prog.modules), ctx.prog.stats()['functions']))
         for l in lines:
             print(l)
+    if below_floor and violations:
+        # a violation located by another rule stands on its own; the shortfall (usually a consequence of the same edit) is reported with it
+        for r, n in below_floor:
+            print('ANALYSIS-NOTE property=%s rule %s matched %d instances, floor is %d' % (ctx.pid, r.id, n, r.floor))
+        below_floor = []
     if below_floor:
-        for f in violations:
-            print('  (unreported finding) [%s] %s @%s: %s' % (f['rule'], f['construct'], f['where'], f['what']))
         for r, n in below_floor:
             print('ANALYSIS-ERROR property=%s rule %s matched %d instances, floor is %d (anchor vanished?)'
                   % (ctx.pid, r.id, n, r.floor))
